@@ -187,16 +187,20 @@ pub fn build(events: &[Event], view: &WireView, real_is_initiator: bool, min_seg
                 seg_size = seg_size.max(pk.payload.len());
             }
             // loss events as the sender sees them
-            if (is_dup || pk.sack().is_some()) && had_outstanding {
-                // a possible loss episode for the window rule (recovery may transmit on its own
-                // accounting); a loss *event* is only what the sender acts on: a retransmission
-                if loss_episode_until.is_none() {
-                    loss_episode_until = Some(max_idx);
-                }
-            }
+            // an episode ends when everything sent before it began is acknowledged ...
             if let Some(u) = loss_episode_until {
                 if cum_acked >= u {
                     loss_episode_until = None;
+                }
+            }
+            // ... and the same packet can open the next one (it reports a new hole)
+            if (is_dup || pk.sack().is_some()) && had_outstanding {
+                // a possible loss episode for the window rule (recovery may transmit on its own
+                // accounting); a loss *event* is only what the sender acts on: a retransmission
+                // (the sender may enter recovery at any of these packets, with everything sent so
+                // far as its recovery point: the episode lasts until the newest of them is covered)
+                if max_idx > cum_acked {
+                    loss_episode_until = Some(loss_episode_until.map(|u| u.max(max_idx)).unwrap_or(max_idx));
                 }
             }
             // the SYN-ACK is consumed by the socket, not by the connection: it is no reference
